@@ -197,6 +197,59 @@ def tcase_coq(c, obs):
     return (f"(mkTCase {B.kspec_coq(c['k'])} {B.kspec_coq(klow)} [{q(c['k']['rho'])}] {c['tau']}%nat {c['phi']}%nat {coq_list(items)})")
 
 
+def gen_tcase_epochs(rng):
+    """one fit call with max_iter in {2, 3}: later epochs re-present every row; pruning rounds then meet categories
+    that survive without owning a sample at the moment (slow learning makes rows change category between epochs)"""
+    c = gen_tcase(rng)
+    c["k"]["beta"] = rng.choice([Fraction(1, 2), Fraction(1, 2), Fraction(1)])
+    c["beta_lower"] = rng.choice([b for b in [Fraction(1, 2), Fraction(1, 4), Fraction(0)] if b <= c["k"]["beta"]])
+    o = c["ops"][0]
+    c["ops"] = [dict(o, iters=rng.choice([2, 2, 3]))]
+    return c
+
+
+def run_tcase_epochs(c):
+    est = make_topo(c)
+    o = c["ops"][0]
+    X = np.array(o["X"], dtype=float)
+    rec = {"ok": True, "logs": [], "ret": []}
+    veto = None
+    if o.get("veto") is not None:
+        keys, _ = B.row_keys(X)
+        veto = B.Veto(est, o["veto"]["tbl"], o["veto"]["a"], o["veto"]["b"], keys)
+    try:
+        with np.errstate(all="ignore"), contextlib.redirect_stdout(io.StringIO()):
+            est.fit(X, match_reset_func=veto, match_tracking=o["mode"], epsilon=float(o["eps"]), max_iter=int(o["iters"]))
+    except Exception as e:
+        rec["ok"] = False
+        rec["err"] = type(e).__name__ + ": " + str(e)[:80]
+    if veto is not None:
+        rec["logs"] = veto.log
+    if rec["ok"]:
+        rec["b"] = {"W": [[B.fr(v) for v in np.asarray(w, dtype=float).ravel()] for w in est.W], "labels": [],
+                    "wsc": [int(v) for v in est.weight_sample_counter_], "sc": int(est.sample_counter_), "rho": B.rho_of(est)}
+        rec["labels"] = [int(v) for v in est.labels_]
+        A = np.asarray(est.adjacency)
+        rec["adj"] = [[int(v) for v in row] for row in A] if A.ndim == 2 else []
+        pm = np.asarray(est._permanent_mask)
+        rec["perm"] = [bool(v) for v in pm] if pm.ndim == 1 else []
+    return est, rec
+
+
+def tncase_coq(c, r):
+    o = c["ops"][0]
+    X = [[Fraction(float(v)) for v in row] for row in o["X"]]
+    _, keys = B.row_keys(np.array(o["X"], dtype=float))
+    if not r["ok"]:
+        ob = "TUndef"
+    else:
+        ob = (f"(TOk {S.snap_coq(r['b'])} {zlist(r['labels'])} {coq_list([natlist(row) for row in r['adj']])} {boollist(r['perm'])} "
+              f"{B.log_coq(r['logs'])} [])")
+    klow = dict(c["k"], beta=c["beta_lower"])
+    return (f"(mkTNCase {B.kspec_coq(c['k'])} {B.kspec_coq(klow)} [{q(c['k']['rho'])}] {c['tau']}%nat {c['phi']}%nat {qmat(X)} {natlist(keys)} "
+            f"{B.vspec_coq(o.get('veto'))} {B.MODE_COQ[o['mode']]} {q(o['eps'])} {int(o['iters'])}%nat {ob})")
+
+
 def summary_t(c):
     return {"estimator": "TopoART", "base": {k: str(v) for k, v in c["k"].items()}, "beta_lower": str(c["beta_lower"]),
             "tau": c["tau"], "phi": c["phi"],
